@@ -40,7 +40,11 @@ fn rib_case(bytes: &[u8]) -> String {
             Err(_) => "ERR".to_string(),
             Ok(it) => {
                 let peers: Vec<String> = (0..it.peer_index.len()).map(|i| peer(&it.peer_index[i])).collect();
-                let v: Vec<String> = it.map(|(fam, reh)| {
+                let v: Vec<String> = it.map(|(fam, mut reh)| {
+                    // looking at a table's entries first (entries() hands out a parser over them - twice, it is an accessor) does
+                    // not use them up: the per-table iterator made afterwards still yields every entry
+                    let (n1, n2) = (reh.entries().remaining(), reh.entries().remaining());
+                    if n1 != n2 { return format!("!entries() is not repeatable: {n1} then {n2} octets"); }
                     let es: Vec<String> = SingleEntryIterator::new(reh).map(|(p, idx, attrs)| format!("{}:{}:{}", pfx(&p), idx, hex(&attrs))).collect();
                     format!("{}{{{}}}", if fam == routecore::bgp::types::AfiSafiType::Ipv6Unicast { 1 } else { 0 }, es.join(";"))
                 }).collect();
